@@ -1470,10 +1470,13 @@ class AstEval:
                 else:
                     raise NameError(f"name '{arg1.id}' is not defined")
             elif isinstance(arg1, ast.Attribute):
-                var_name = await self.ast_attribute_collapse(arg1, check_undef=False)
-                if not isinstance(var_name, str):
-                    raise NameError("state name should be 'domain.entity' or 'domain.entity.attr'")
-                State.delete(var_name)
+                var_name = await self.ast_attribute_collapse(arg1)
+                if isinstance(var_name, str):
+                    State.delete(var_name)
+                else:
+                    # the root of the dotted name is a Python variable (or not a name at all):
+                    # delete the attribute of that object, as load and store already do
+                    delattr(await self.aeval(arg1.value), arg1.attr)
             else:
                 raise NotImplementedError(f"unknown target type {arg1} in del")
 
